@@ -432,6 +432,21 @@ def g_ttv(tier, seed):
                     yield C("ttv", op, "control", r, [A_list([A_vec(s[i], 0), A_vec(s[j], 1)]), A_ints([i, j])],
                             form="list", modes=[i, j], **info)
                 yield C("ttv", op, "both_dims", r, [A_vec(s[0])], {"dims": 0, "exclude_dims": 1}, form="kw", **info)
+                # the complementary designation: every mode except the excluded one(s); one multiplicand per remaining
+                # mode or one per mode of the tensor
+                for k in range(n):
+                    rest = [allv[j] for j in range(n) if j != k]
+                    for ex, fm in ((k, "int"), (A_ints([k]), "array")):
+                        yield C("ttv", op, "control", r, [A_list(rest)], {"exclude_dims": ex}, form="excl:" + fm,
+                                mode=k, **info)
+                        yield C("ttv", op, "control", r, [A_list(allv)], {"exclude_dims": ex}, form="excl_all:" + fm,
+                                mode=k, **info)
+                for bad, var in ((n, "mode_oor"), (-1, "mode_neg"), (-2, "mode_neg")):
+                    for ex, fm in ((bad, "int"), (A_ints([bad]), "array")):
+                        yield C("ttv", op, var, r, [A_list(allv)], {"exclude_dims": ex}, form="excl_all:" + fm,
+                                mode=bad, **info)
+                        yield C("ttv", op, var, r, [A_list(allv[:-1])], {"exclude_dims": ex}, form="excl:" + fm,
+                                mode=bad, **info)
             # out of range / negative position, the multiplicand fits the last mode
             yield C("ttv", op, "mode_oor", r, [A_vec(s[-1]), n], form="int", mode=n, **info)
             yield C("ttv", op, "mode_oor", r, [A_list([A_vec(s[-1])]), A_ints([n])], form="list", mode=n, **info)
@@ -483,6 +498,20 @@ def g_ttm(tier, seed):
                     yield C("ttm", op, "control", r, [A_list([A_mat(2, s[i]), A_mat(3, s[j], 1)]), A_ints([i, j])],
                             form="list", modes=[i, j], **info)
                 yield C("ttm", op, "both_dims", r, [A_mat(2, s[0])], {"dims": 0, "exclude_dims": 1}, form="kw", **info)
+                allm = [A_mat(2, s[k], k) for k in range(n)]
+                for k in range(n):
+                    rest = [allm[j] for j in range(n) if j != k]
+                    for ex, fm in ((k, "int"), (A_ints([k]), "array")):
+                        yield C("ttm", op, "control", r, [A_list(rest)], {"exclude_dims": ex}, form="excl:" + fm,
+                                mode=k, **info)
+                        yield C("ttm", op, "control", r, [A_list(allm)], {"exclude_dims": ex}, form="excl_all:" + fm,
+                                mode=k, **info)
+                for bad, var in ((n, "mode_oor"), (-1, "mode_neg"), (-2, "mode_neg")):
+                    for ex, fm in ((bad, "int"), (A_ints([bad]), "array")):
+                        yield C("ttm", op, var, r, [A_list(allm)], {"exclude_dims": ex}, form="excl_all:" + fm,
+                                mode=bad, **info)
+                        yield C("ttm", op, var, r, [A_list(allm[:-1])], {"exclude_dims": ex}, form="excl:" + fm,
+                                mode=bad, **info)
             yield C("ttm", op, "mode_oor", r, [A_mat(2, s[-1]), n], mode=n, **info)
             yield C("ttm", op, "mode_neg", r, [A_mat(2, s[-1]), -1], mode=-1, **info)
             yield C("ttm", op, "mode_oor", r, [A_list([A_mat(2, s[-1])]), A_ints([n])], form="list", mode=n, **info)
@@ -1224,6 +1253,16 @@ def g_inplace(tier, seed):
                 yield C("inplace", cname(hk) + ".__setitem__", "control", r,
                         [{"slices": reg}, {"rhs": rs, "sparse": hk != "tensor"}], hk=hk, region=reg, rhs=rs,
                         grows=grows, shape=list(s))
+                # a right-hand side of another kind (plain array, the other tensor class), fitting or not, and the
+                # same writes through a key with one more entry than the receiver has modes (the order would grow)
+                for reg2, og in ((reg, False), (reg + [[0, 1]], True), (reg + [[0, 2]], True)):
+                    rs2 = [b - a for a, b in reg2]
+                    for t in (rs2, [x + 1 for x in rs2]):
+                        for rk, rhs in (("ndarray", {"h_data": list(t)}),
+                                        ("other_class", {"rhs": list(t), "sparse": hk == "tensor"})) + (
+                                (("same_class", {"rhs": list(t), "sparse": hk != "tensor"}),) if og else ()):
+                            yield C("inplace", cname(hk) + ".__setitem__", "rhs_type", r, [{"slices": reg2}, rhs], hk=hk,
+                                    region=reg2, rhs=list(t), rhs_kind=rk, grows=grows or og, shape=list(s))
 
 
 GROUPS = [g_innerprod, g_elementwise, g_ttv, g_ttm, g_mttkrp, g_ttt, g_modes, g_ctor, g_algo, g_inplace]
